@@ -40,6 +40,10 @@ def is_zst(t):
         return all(is_zst(x) for x in t['items'])
     if k == 'struct':
         return all(is_zst(f[1]) for f in t['fields'])
+    if k == 'cenum':
+        return len(t.get('variants') or []) == 1        # a field-less enum with one variant has no bytes
+    if k == 'cell':
+        return is_zst(t['inner'])                       # Cell<T> is transparent over T
     return False
 
 
@@ -52,6 +56,33 @@ def has_single_variant_cenum(t):
     if isinstance(t, (list, tuple)):
         return any(has_single_variant_cenum(x) for x in t)
     return False
+
+
+def single_variant_cenum_names(t, out=None):
+    out = set() if out is None else out
+    if isinstance(t, dict):
+        if t.get('k') == 'cenum' and len(t.get('variants') or []) == 1:
+            out.add(t.get('name'))
+        for x in t.values():
+            single_variant_cenum_names(x, out)
+    elif isinstance(t, (list, tuple)):
+        for x in t:
+            single_variant_cenum_names(x, out)
+    return out
+
+
+def undecoded_enum_names(bs, out=None):
+    """type names of the enums for which the debugger shows no variant"""
+    out = set() if out is None else out
+    if isinstance(bs, dict):
+        if bs.get('k') == 'enum' and bs.get('variant') is None:
+            out.add((bs.get('ty') or {}).get('name'))
+        for x in bs.values():
+            undecoded_enum_names(x, out)
+    elif isinstance(bs, list):
+        for x in bs:
+            undecoded_enum_names(x, out)
+    return out
 
 
 def judge_var(v, name, bsval, truth, typ, ctx, counts):
@@ -69,7 +100,11 @@ def judge_var(v, name, bsval, truth, typ, ctx, counts):
         top = typ['type']['k']
         if cls != 'enum-undecoded' and has_128(typ['type']) and valcmp.contains_undecoded_enum(bsval):
             cls = 'enum-undecoded'
-        if cls in ('wrong-variant', 'enum-undecoded') and has_single_variant_cenum(typ['type']) and valcmp.contains_undecoded_enum(bsval):
+        # a zero-sized single-variant enum is shown without its variant (known finding); as an element of a set or a key of a map
+        # it then matches nothing the program holds: same cause, if every undecoded enum in the shown tree is such a type
+        und = undecoded_enum_names(bsval)
+        if cls in ('wrong-variant', 'enum-undecoded', 'missing-elements', 'invented-or-duplicated-elements') and und \
+                and und <= single_variant_cenum_names(typ['type']):
             cls = 'enum-undecoded-zero-sized-single-variant'
             top = 'any'
         if cls == 'enum-undecoded':
@@ -84,7 +119,8 @@ def judge_var(v, name, bsval, truth, typ, ctx, counts):
 
 
 def run_case(spec):
-    idx, cfg, tier = spec
+    idx, cfg, tier = spec[:3]
+    asan = len(spec) > 3 and spec[3]       # the same comparison with the AddressSanitizer build of the worker
     v = Verdict('C06', tier, '')
     try:
         prep = valslib.prepare(idx, **cfg)
@@ -96,9 +132,11 @@ def run_case(spec):
         v.inconc('oracle-unusable', why)
         return v.export()
     src = os.path.basename(prep.b.src)
-    S = Session(prep.b, v, mon=MON_LIGHT)
+    S = Session(prep.b, v, mon=MON_LIGHT, sanitized=asan, timeout=240 if asan else 60)
     counts = {}
     ctx = {'binary': prep.b.path, 'src': prep.b.src, 'cfg': cfg}
+    if asan:
+        ctx['worker'] = 'AddressSanitizer build'
     try:
         S.launch()
         r1 = S.cmd('break_line', file=src, line=prep.side['mark_line'])
@@ -141,7 +179,7 @@ def run_case(spec):
                     v.count('type_name_differences')
                     counts.setdefault('_typenames', []).append((want, tn))
                     import re
-                    if valcmp.norm_type(tn) == re.sub(r';\d+\]$', ']', valcmp.norm_type(want)):
+                    if valcmp.norm_type(tn) == re.sub(r';\s*\d+\]', ']', valcmp.norm_type(want)):
                         tcls = 'array-length-missing'
                     else:
                         tcls = 'other'
@@ -164,6 +202,8 @@ def run_case(spec):
                 if var['kind'] != 'arg':
                     continue
                 if var['name'] not in shown and is_zst(var['type']):
+                    # rustc describes a zero-sized argument as an unnamed DW_TAG_formal_parameter plus a DW_TAG_variable of that
+                    # name: there is no parameter of this name in the binary's DWARF for the debugger to list
                     v.count('zst_not_listed')
                     continue
                 if var['name'] not in shown:
@@ -179,10 +219,21 @@ def run_case(spec):
         v.case(signature=('c06', idx, tuple(sorted(cfg.items()))),
                sample={'program': src, 'cfg': cfg, 'variables': nvars, 'type_name_differences': tn[:5],
                        'example': {prep.side['vars'][5]['name']: str(prep.truth.get(prep.side['vars'][5]['name']))[:200]}})
-        v.count('programs')
+        v.count('asan_programs_clean' if asan else 'programs')
+        if asan:
+            v.count('asan_variables_compared', nvars)
     except Crash as c:
-        v.violation(f'crash:{c.kind}:{(c.info or {}).get("panic", {}).get("loc") if c.kind == "panic" else (c.info or {}).get("cmd")}',
-                    f'debugger {c.kind} while reading variables', {'info': c.info, 'history': S.history[-10:], 'binary': prep.b.path}, prop='C08')
+        reports = (c.info or {}).get('sanitizer') or []
+        if reports:
+            from .c08 import asan_signature
+            kind, frame = asan_signature(reports[0])
+            v.violation(f'c06:asan:{kind}:{frame}', 'AddressSanitizer reported a memory error inside the debugger while it read well-formed program data',
+                        dict(ctx, history=S.history[-6:], report=reports[0][:5000]), prop='C08')
+        elif asan and c.kind == 'hang':
+            v.inconc('slow-under-sanitizer', S.history[-1:])
+        else:
+            v.violation(f'crash:{c.kind}:{(c.info or {}).get("panic", {}).get("loc") if c.kind == "panic" else (c.info or {}).get("cmd")}',
+                        f'debugger {c.kind} while reading variables', {'info': c.info, 'history': S.history[-10:], 'binary': prep.b.path}, prop='C08')
     finally:
         S.close()
     return v.export()
@@ -213,4 +264,12 @@ def main(tier):
     common.parallel_map(_prep, sorted({(s[0], tuple(sorted(s[1].items()))) for s in specs}))
     for res in common.safe_map(run_case, specs):
         V.merge(res)
+    # the readers of hashbrown tables, B-trees, VecDeque, Rc/Arc ... again on the AddressSanitizer build of the worker
+    if common.asan_wanted(tier):
+        if common.asan_ready():
+            V.minima['asan_variables_compared'] = 100 if tier == 'quick' else 1500
+            for res in common.safe_map(run_case, [s + (True,) for s in specs[:(4 if tier == 'quick' else 60)]], procs=8):
+                V.merge(res)
+        else:
+            V.inconc('asan-worker-not-built', 'the AddressSanitizer build of the worker is missing or older than the plain worker')
     return V.finish()
